@@ -302,17 +302,31 @@ class Bench:
                 # consumers are ready until nothing is offered any more; then `end` is logged
                 for c in cons.values():
                     c["mode"] = ("ready",)
-                for _ in range(64):       # let scheduled stream events happen first
-                    if not pending and all((not p["q"]) or p["q"][0][2] <= host.cycle_no for p in prod.values()):
-                        break
-                    await host.idle(ctx, 1)
+                def nbeats():
+                    return sum(1 for x in ev if x[3]["e"] == "beat")
+
+                async def settle():       # until the producers are done, or the endpoint takes nothing more
+                    still = 0
+                    for _ in range(20000):
+                        if not pending and all(not p["q"] for p in prod.values()):
+                            break
+                        nb = nbeats()
+                        await host.idle(ctx, 1)
+                        still = still + 1 if nbeats() == nb else 0
+                        if still >= 16 and not pending and \
+                                all((not p["q"]) or p["q"][0][2] <= host.cycle_no for p in prod.values()):
+                            break
+
+                for p in prod.values():
+                    p["flush"] = 0
+                    p["rate"] = 1.0
                 for n in sorted(prod):
-                    prod[n]["flush"] = 0
-                    for _round in range(4):
+                    for _round in range(400):
+                        await settle()
+                        nb = nbeats()
                         naks = 0
                         for _ in range(64):
                             await do_tok("IN", n)
-                            t_tok = host.cycle_no
                             await do_wait()
                             if stt["last"].get("kind") == "data":
                                 naks = 0
@@ -321,8 +335,8 @@ class Bench:
                                 naks += 1
                                 if naks >= 2:
                                     break
-                        # a beat accepted after the last token started may have completed a packet: poll again
-                        if not any(x[3]["e"] == "beat" and x[0] >= t_tok - 6 for x in ev):
+                        # beats accepted meanwhile may have completed a packet: settle and poll again
+                        if nbeats() == nb and not prod[n]["q"]:
                             break
                 quiet = 0
                 for _ in range(400):
@@ -515,39 +529,53 @@ class ManagerBench:
                 st["rate"] = op[2]
             elif k == "flush":
                 st["flush"] = int(op[2])
-            elif k == "end":
+            elif k == "end":          # quiescence, as in Bench: settle the producer, poll until two NAKs, repeat
                 st["flush"] = 0
-                for _ in range(64):       # let scheduled stream events happen first
-                    if not st["q"] or (st["q"][0][2] <= st["t"] and not st["offering"] and ctx.get(dut.transfer_stream.ready) == 0):
-                        break
-                    await cycle()
-                naks = 0
-                for _ in range(64):
-                    log(st["t"], 0, {"e": "tok", "pid": "IN", "ep": 1, "o": "in1"})
-                    st["got"] = None
-                    await cycle(new_token=1)
-                    await cycle()
-                    await cycle(rfr=1)
-                    n = 0
-                    while st["got"] is None and (n < 6 or st["tx"] != "idle") and n < 40 * self.m + 200:
-                        await cycle()
-                        n += 1
-                    g = st["got"]
-                    if g is None:
-                        log(st["t"], 0, {"e": "none", "o": "in1"})
-                        break
-                    log(g["t"], 0, {"e": "resp", "k": g["k"], "pid": g["pid"], "payload": g["payload"],
-                                    "ok": g["k"] != "bad", "o": "in1"})
-                    if g["k"] == "data":
-                        naks = 0
-                        await cycle()
-                        await cycle(ack=1)
-                        log(st["t"] - 1, 0, {"e": "hs", "o": "in1"})
-                    else:
-                        naks += 1
-                        late = any(x[3]["e"] == "beat" and x[0] >= st["t"] - 8 for x in ev)
-                        if naks >= 2 and not late:
+                st["rate"] = 1.0
+
+                def nbeats():
+                    return sum(1 for x in ev if x[3]["e"] == "beat")
+
+                for _round in range(400):
+                    still = 0
+                    for _ in range(20000):
+                        if not st["q"]:
                             break
+                        nb = nbeats()
+                        await cycle()
+                        still = still + 1 if nbeats() == nb else 0
+                        if still >= 16 and st["q"][0][2] <= st["t"]:
+                            break
+                    nb = nbeats()
+                    naks = 0
+                    for _ in range(64):
+                        log(st["t"], 0, {"e": "tok", "pid": "IN", "ep": 1, "o": "in1"})
+                        st["got"] = None
+                        await cycle(new_token=1)
+                        await cycle()
+                        await cycle(rfr=1)
+                        n = 0
+                        while st["got"] is None and (n < 6 or st["tx"] != "idle") and n < 40 * self.m + 200:
+                            await cycle()
+                            n += 1
+                        g = st["got"]
+                        if g is None:
+                            log(st["t"], 0, {"e": "none", "o": "in1"})
+                            naks = 2
+                            break
+                        log(g["t"], 0, {"e": "resp", "k": g["k"], "pid": g["pid"], "payload": g["payload"],
+                                        "ok": g["k"] != "bad", "o": "in1"})
+                        if g["k"] == "data":
+                            naks = 0
+                            await cycle()
+                            await cycle(ack=1)
+                            log(st["t"] - 1, 0, {"e": "hs", "o": "in1"})
+                        else:
+                            naks += 1
+                            if naks >= 2:
+                                break
+                    if nbeats() == nb and not st["q"]:
+                        break
                 log(st["t"], 0, {"e": "end", "o": "bus"})
             elif k == "other_tok":
                 log(st["t"], 0, {"e": "tok", "pid": "IN", "ep": 2, "o": "in2"})
